@@ -20,10 +20,10 @@ Definition fentry_ok (s : str) (e : fentry) : Prop :=
       a + 1 <= fst (f_id e) /\ fst (f_id e) <= snd (f_id e) /\ snd (f_id e) <= b /\
       span_inside a b (f_value e)
   | FJunk =>
-      (* the junk text has a non-blank character: after trimming the leading and
-         trailing whitespace something is left *)
-      f_content e = slice s a b /\
-      lead reLead (f_content e) + trail reTrail (f_content e) < b - a
+      (* the junk content is the text of its span (that trimming leaves something
+         is no longer assumed: [trim_ok] below is proved for the real regexes,
+         Proofs/FluentTrim.v) *)
+      f_content e = slice s a b
   | FComment => True
   | FOther => False          (* fluent.syntax has no other top-level entry *)
   end.
@@ -36,6 +36,11 @@ Fixpoint body_ok (s : str) (last : nat) (body : list fentry) : Prop :=
       last <= fst (f_span e) /\ fst (f_span e) < snd (f_span e) /\
       snd (f_span e) <= length s /\ fentry_ok s e /\ body_ok s (snd (f_span e)) rest
   end.
+
+(* trimming a non-empty junk text leaves a non-empty junk entry: a fact about the
+   two inline regexes and the white-space-only guard of FluentParser.walk *)
+Definition trim_ok : Prop := forall content : str, content <> [] ->
+  lead reLead (trim_content content) + trail reTrail (trim_content content) < length content.
 
 Definition lossless_fluent (s : str) (body : list fentry) : Prop :=
   let es := walk_fluent reLead reTrail false s body in
